@@ -48,6 +48,11 @@ def histories(strict=False, guaranteed_bias=False, max_ticks=40):
         # (UdpClient.setMessageTimeout before connect() / while connecting / once connected)
         "s_msg_timeout": st.sampled_from([None, None, 0.4, 2.5]),
         "c_msg_timeout": st.one_of(st.none(), st.tuples(st.sampled_from([0.4, 2.5]), st.sampled_from(["before", "connecting", "connected"])).map(list)),
+        # a burst of many small messages in one tick: more than a 256-message window's worth of newer message numbers
+        # overtake whatever is still waiting for its retransmission
+        "burst": st.one_of(st.none(), st.none(), st.none(), st.fixed_dictionaries({
+            "tick": st.integers(0, max_ticks), "side": st.sampled_from(["c", "s"]), "count": st.sampled_from([40, 257, 300, 420]),
+            "size": st.sampled_from([0, 1, 8, 30]), "retry": st.sampled_from([0, 1, -1])})),
     })
 
 
@@ -175,8 +180,13 @@ def run(ctx, c, oracle, per_step=None, link_setup=None, payload_fn=None):
                 per_step(f)
 
         window = {"c": [], "s": []}    # strict: (t, bytes) submitted per side during the last second
+        burst = c.get("burst")
         for ti in range(n_adv):
-            for side, sspec, retry, api in ticks[ti]:
+            ops_now = list(ticks[ti])
+            if burst and min(burst["tick"], n_adv - 1) == ti:
+                ops_now += [[burst["side"], ["abs", burst["size"]], burst["retry"], 0]] * burst["count"]
+                f.burst = burst["count"]
+            for side, sspec, retry, api in ops_now:
                 n = scen.resolve_size(sspec, P, F)
                 if c["strict"]:
                     n = min(n, 4096)
